@@ -6,6 +6,7 @@ import (
 	"math/big"
 	"sync"
 
+	"github.com/meshplus/bitxhub-kit/crypto"
 	"github.com/meshplus/bitxhub-kit/types"
 	"github.com/meshplus/bitxhub-model/pb"
 	"github.com/meshplus/bitxhub/internal/executor/oracle/appchain"
@@ -27,11 +28,20 @@ var (
 	}
 )
 
+// zzKey is a block-signing key stub (signatures are not part of any claim).
+type zzKey struct{}
+
+func (zzKey) Bytes() ([]byte, error)               { return []byte("key"), nil }
+func (zzKey) Type() crypto.KeyType                 { return crypto.Secp256k1 }
+func (zzKey) Sign(digest []byte) ([]byte, error)   { return []byte("signature"), nil }
+func (zzKey) PublicKey() crypto.PublicKey          { return nil }
+
 type zzVerify struct{ ok func(tx pb.Transaction) (bool, uint64, error) }
 
 // zzNewExec builds a BlockExecutor over a real ledger (model stores) with n admins.
 func zzNewExec(nAdmins int, gasPrice *big.Int) *BlockExecutor {
-	lg, err := ledger.New(nil, zz.NewStore(), zz.NewStore(), zz.NewBlockFile(), nil, zz.Logger())
+	rp := &repo.Repo{Key: &repo.Key{PrivKey: zzKey{}}}
+	lg, err := ledger.New(rp, zz.NewStore(), zz.NewStore(), zz.NewBlockFile(), nil, zz.Logger())
 	if err != nil {
 		panic(err)
 	}
@@ -50,6 +60,7 @@ func zzNewExec(nAdmins int, gasPrice *big.Int) *BlockExecutor {
 		lock:             &sync.Mutex{},
 		gasLock:          &sync.Mutex{},
 		admins:           zzAdmins[:nAdmins],
+		evmChainCfg:      newEVMChainCfg(&cfg),
 	}
 	exec.config.ChainID = 1356
 	exec.txsExecutor = NewSerialExecutor(exec.applyTx, exec.registerBoltContracts, exec.logger)
